@@ -32,7 +32,7 @@ DT = 600
 BATHY = ["flat", "slope", "bumpy"]
 STRETCH = [dict(theta_s=1e-4, theta_b=0.0, hc=0.0, Vtransform=1), dict(theta_s=3.0, theta_b=0.4, hc=10.0, Vtransform=1), dict(theta_s=5.0, theta_b=0.8, hc=20.0, Vtransform=2)]
 MASKS = ["sea", "island", "channel", "coast", "diag"]
-STORAGE = ["f4", "f8", "i2", "i2-bare", "u-packed", "v-packed", "i2-offset", "f8-nan"]  # f8-nan: land faces hold NaN in the file (post-processed files); bare: scale_factor only (no add_offset attribute); u-/v-packed: the other component is float; offset: velocity packed with a non-zero add_offset
+STORAGE = ["f4", "f8", "i2", "i2-bare", "u-packed", "v-packed", "i2-offset", "f8-nan", "f4-scaled-nan"]  # f8-nan: land faces hold NaN in the file (post-processed files); bare: scale_factor only (no add_offset attribute); u-/v-packed: the other component is float; offset: velocity packed with a non-zero add_offset
 FIELDS = ["linear", "generic", "depthlin"]
 
 
@@ -49,7 +49,7 @@ def cases(tier, seed):
             combos = list(itertools.product(STORAGE, FIELDS))
         else:  # round-robin pairing of storage and field, shifted by the seed
             k += 1
-            combos = [(STORAGE[k % 8], FIELDS[(k // 3) % 3]), (STORAGE[(k + 3) % 8], FIELDS[(k // 3 + 1 + k % 2) % 3])]
+            combos = [(STORAGE[k % 9], FIELDS[(k // 3) % 3]), (STORAGE[(k + 4) % 9], FIELDS[(k // 3 + 1 + k % 2) % 3])]
         for sto, fi in combos:
             if fi == "depthlin" and ba != "flat":
                 fi = "generic" if sto not in ("f8", "i2-offset") else "linear"
@@ -192,12 +192,16 @@ def run_case(case):
         scale_b.update(u=(2.0 ** -11, -0.5), v=(2.0 ** -12, 0.0625))
         sto = "i2"
     frw = fr
+    if sto == "f4-scaled-nan":  # single precision with a scale_factor (other units) AND NaN on the land faces
+        mu, mv = w.mask[:, :-1] * w.mask[:, 1:], w.mask[:-1, :] * w.mask[1:, :]
+        frw = dict(fr, u=np.where(mu[None] > 0, fr["u"], np.nan), v=np.where(mv[None] > 0, fr["v"], np.nan))
+        sto = "f4-scaled"
     if sto == "f8-nan":  # the file holds NaN on every land face (and in every land cell of the scalars); what ladim must make of it is zero flow through the face
         mu, mv = w.mask[:, :-1] * w.mask[:, 1:], w.mask[:-1, :] * w.mask[1:, :]
         frw = dict(fr, u=np.where(mu[None] > 0, fr["u"], np.nan), v=np.where(mv[None] > 0, fr["v"], np.nan))
         sto = "f8"
-    if sto in ("f4", "f8"):  # float files carry the ROMS fill value in the land cells of w (no particle is ever in a land cell)
-        frw = dict(frw, w=np.where(w.mask[None] > 0, fr["w"], 2.0 ** 120))  # a huge value that single precision holds exactly
+    if sto in ("f4", "f8", "f4-scaled"):  # float files carry the ROMS fill value in the land cells of w (no particle is ever in a land cell)
+        frw = dict(frw, w=np.where(w.mask[None] > 0, fr["w"], 2.0 ** 100))  # a huge value that single precision holds exactly, also after division by a scale factor
     f = w.write_file(d / "f_0.nc", [dict(t=S0, **frw)], storage=sto, scale=scale)
     w.write_file(d / "f_1.nc", [dict(t=S0 + 10 * DT, **frw)], storage=sto, scale=scale_b)
     pattern = str(d / "f_*.nc")
